@@ -210,12 +210,14 @@ def gen_plan(seed, n_ops=None):
         kind = rng.choice(['merge', 'merge', 'zip', 'recompress', 'move',
                            'single_run', 'resume', 'cluster_rerun',
                            'zip', 'recompress', 'single_run',
-                           'killed_run', 'killed_merge', 'paused_run'])
+                           'killed_run', 'killed_merge', 'paused_run',
+                           'other_format_run', 'swap_names'])
         op = {'op': kind, 'pick': rng.random(), 'pick2': rng.random(),
               'n': rng.choice([2, 2, 3, 5])}
         if kind == 'paused_run':
             op['ki_line'] = rng.randint(150, 900)
-        if kind in ('single_run', 'killed_run', 'paused_run'):
+        if kind in ('single_run', 'killed_run', 'paused_run',
+                    'other_format_run'):
             op['input'] = rng.randrange(I)
             op['trials'] = rng.randint(1, 6)
             op['ext'] = rng.choice(['.json', '.json.gz'])
@@ -322,6 +324,7 @@ class Store:
                 gc.collect(0)
                 if self.violations:
                     break
+                self.stamp()
                 if applied:
                     self.check_store(idx, op)
                 if self.violations:
@@ -398,7 +401,7 @@ class Store:
         sim.log.add('store', 'op', [idx, kind])
         before = self.snapshot_pool()
         reshaping = kind in ('merge', 'zip', 'recompress', 'move',
-                             'killed_merge')
+                             'killed_merge', 'swap_names')
         ok = True
         if kind in ('cluster_run', 'cluster_rerun'):
             ok = self.op_cluster(idx, op)
@@ -422,6 +425,10 @@ class Store:
             ok = self.op_recompress(idx, op)
         elif kind == 'move':
             ok = self.op_move(idx, op)
+        elif kind == 'other_format_run':
+            ok = self.op_other_format(idx, op)
+        elif kind == 'swap_names':
+            ok = self.op_swap(idx, op)
         else:
             raise HarnessError(f'unknown op {kind}')
         if not ok:
@@ -682,6 +689,99 @@ class Store:
             if s[0] == f:
                 s[0] = g
         return True
+
+    def op_other_format(self, idx, op):
+        """A run that wrote X.json is continued with compressed output (or
+        the other way round): X.json and X.json.gz side by side, holding
+        different trials of the same simulations."""
+        live = [s for s in self.singles if os.path.exists(s[0])]
+        if not live or op['pick2'] < 0.3:
+            # no finished single run in the store: make one first
+            self.op_single(idx, op)
+            live = self.singles[-1:]
+        s = live[int(op['pick'] * len(live)) % len(live)]
+        f = s[0]
+        g = f[:-3] if f.endswith('.json.gz') else f + '.gz'
+        if os.path.exists(g):
+            return False
+        inp = os.path.join(self.data_dir, s[3], f'input_{s[1]:02d}.json')
+        self._run_file(f'op{idx}-otherfmt', inp, g, op['trials'])
+        self.singles.append([g, s[1], op['trials'], s[3]])
+        self.sim.probe('same_stem_plain_and_gz_side_by_side')
+        return True
+
+    def _file_identities(self, path):
+        try:
+            raw = self.sb.read_bytes(path)
+            if path.endswith('.gz'):
+                raw = gzip.decompress(raw)
+            recs = []
+            _flatten(json.loads(raw.decode()), recs)
+            return sorted(seams.identity_of_inputs(r['inputs'])
+                          for r in recs), raw
+        except (ValueError, OSError, EOFError, TypeError):
+            return None, None
+
+    def op_swap(self, idx, op):
+        """Two result files holding parts of the same simulations trade
+        names (mv a t; mv b a; mv t b) between two analyses made in one
+        process.  Preferred: a pair of equal size with different contents."""
+        files = self.plain_files()
+        info = {}
+        for f in files:
+            ids, raw = self._file_identities(f)
+            if ids:
+                info[f] = (ids, os.path.getsize(f), raw)
+        pairs = []
+        fl = sorted(info)
+        for a_i, a in enumerate(fl):
+            for b in fl[a_i + 1:]:
+                if a.rsplit('.', 1)[-1] != b.rsplit('.', 1)[-1] \
+                        or info[a][0] != info[b][0] \
+                        or info[a][2] == info[b][2]:
+                    continue
+                pairs.append((0 if info[a][1] == info[b][1] else 1, a, b))
+        if not pairs:
+            return False
+        pairs.sort()
+        best = [p_ for p_ in pairs if p_[0] == pairs[0][0]]
+        _, a, b = best[int(op['pick'] * len(best)) % len(best)]
+        if pairs[0][0] == 0:
+            self.sim.probe('swapped_files_of_equal_size')
+        t = a + '.swapping'
+        sbx._real_rename(a, t)
+        sbx._real_rename(b, a)
+        sbx._real_rename(t, b)
+        for s in self.singles:
+            if s[0] == a:
+                s[0] = b
+            elif s[0] == b:
+                s[0] = a
+        return True
+
+    def stamp(self):
+        """File times as a file system with one-second granularity under the
+        *simulated* clock gives them: a file keeps its time stamp when it is
+        renamed and gets the current simulated second when it is (re)written.
+        (The real tmpfs stamps with the machine's clock in nanoseconds, which
+        no run could reproduce.)"""
+        if not os.path.isdir(self.res_dir):
+            return
+        seen = getattr(self, '_stamped', None)
+        if seen is None:
+            seen = self._stamped = {}
+        now = int(self.sim.clock.now()) * 10 ** 9
+        for d, _, files in sorted(os.walk(self.res_dir)):
+            for fn in sorted(files):
+                p = os.path.join(d, fn)
+                try:
+                    st = os.stat(p)
+                    dg = digest([self.sb.read_bytes(p).hex()])
+                except (OSError, AttributeError):
+                    continue
+                if seen.get(st.st_ino, (None,))[0] != dg:
+                    seen[st.st_ino] = (dg, now)
+                os.utime(p, ns=(seen[st.st_ino][1], seen[st.st_ino][1]))
 
     # -- the oracle ---------------------------------------------------------
     def check_store(self, idx, op):
